@@ -70,7 +70,7 @@ class C15(Prop):
     id = "C15"
     once_kinds = ("point", "auto", "usage")
     rule = ("cases: the complete product of 288 option points x 3 probe documents (each option changes at least one of them; "
-            "CRLF / lone-CR / BOM documents given as the same bytes in a file and on stdin) x {file->stdout, stdin->stdout, stdin->-o, --inplace, --inplace --nobackup, several files->stdout, "
+            "CRLF / lone-CR / BOM documents given as the same bytes in a file and on stdin) x {file->stdout, file->-o, stdin->stdout, stdin->-o, --inplace, --inplace --nobackup, several files->stdout, "
             "several files --inplace} through cli.main in-process, reformat_file and reformat_text; --auto against its spelled-out "
             "flags; 6 usage errors; a stratified sample of real subprocess runs of both executables. Non-trivial: the option "
             "point changes the output of the probe document relative to the defaults or the mode writes a file; distinct by "
@@ -195,6 +195,11 @@ class C15(Prop):
             ok("stdin->stdout", name, out if rc == 0 else f"<exit {rc}: {err[:80]}>", exp[name])
             rc, out, err = self.main(a + ["-o", "out.md", "-"], d, stdin=text)
             ok("stdin->-o", name, self.read(d, "out.md") if rc == 0 and os.path.exists(os.path.join(d, "out.md")) else f"<exit {rc}: {err[:80]}>", exp[name])
+            # file -> -o (a single named file may go to an output path as well; the input stays as it is)
+            rc, out, err = self.main(a + ["-o", "out2.md", name], d)
+            ok("file->-o", name, self.read(d, "out2.md") if rc == 0 and os.path.exists(os.path.join(d, "out2.md")) else f"<exit {rc}: {err[:80]}>", exp[name])
+            if self.read(d, name) != text:
+                self.differ(col, "inproc", "C15/input-file-modified-without-inplace", dict(case, doc=name), argv=a)
             # --inplace with and without backup
             for nb in (False, True):
                 d2 = self.fresh({name: text})
